@@ -336,9 +336,6 @@ func (it *Interp) bindParams(formals []*Node, args []Value, ctx *execCtx, env *E
 		case KPatElem:
 			v := arg(args, i)
 			if v == Undefined && p.B != nil {
-				if p.A.K == KIdent && isAnonFn(p.B) {
-					it.trap(Known.ParamDefaultName, "C02-param-default-name")
-				}
 				v = it.evalNamed(p.B, ctx, p.A)
 			}
 			it.bindTarget(p.A, v, ctx, env, assign)
@@ -507,6 +504,38 @@ func (it *Interp) performEval(n *Node, ctx *execCtx, direct bool) Value {
 	if varEnv.kind == envGlobal {
 		it.declareGlobalFunctionsAndVars(d, varEnv, strict, true, lexEnv)
 	}
+	if direct && !strict && varEnv.kind != envGlobal && (Known.EvalVarShadowsOuter || Known.EvalVarOverPatternParam) {
+		// the function environment this eval declares into
+		var fe *Env
+		for e := varEnv; e != nil; e = e.outer {
+			if e.kind == envFunction {
+				fe = e
+				break
+			}
+		}
+		for _, name := range d.varNames {
+			if fe != nil && fe.fnObj != nil && fe.fnObj.fn.node != nil && !simpleParams(fe.fnObj.fn.node.L) {
+				for _, prm := range fe.fnObj.fn.node.L {
+					for _, pn := range BoundNames(prm, nil) {
+						if pn == name {
+							it.trap(Known.EvalVarOverPatternParam, "C02-eval-var-over-pattern-param")
+						}
+					}
+				}
+			}
+			if varEnv.hasOwnDecl(name) || fe == nil {
+				continue
+			}
+			for e := fe.outer; e != nil && e.kind != envGlobal; e = e.outer {
+				if e.kind == envObject {
+					continue
+				}
+				if _, ok := e.vars[name]; ok {
+					it.trap(Known.EvalVarShadowsOuter, "C02-eval-var-shadows-outer")
+				}
+			}
+		}
+	}
 	if Known.EvalVarFuncName && direct && !strict && varEnv.kind != envGlobal {
 		for e := varEnv; e != nil; e = e.outer {
 			if e.kind == envFunction {
@@ -546,6 +575,10 @@ func (it *Interp) performEval(n *Node, ctx *execCtx, direct bool) Value {
 		panic(&abort{"depth"})
 	}
 	defer func() { it.depth-- }()
+	if direct {
+		it.evalActive++
+		defer func() { it.evalActive-- }()
+	}
 	c := it.evalStmts(n.L, ectx)
 	if c.t == cThrow {
 		panic(&Thrown{c.v})
